@@ -1,9 +1,18 @@
 package main
 
-// Facts for C11 (watermarks) and C10 (timer registry guards): the comparison used by each one-line decision and the
-// constant slack of CurrentWatermark, extracted from the current source. A changed operand or an unknown shape is a
-// "problem" (exit 3 = broken correspondence); a changed comparison or constant changes the generated fact, and the
-// theorems in Props/C10.lean / Props/C11.lean are re-checked against it.
+// Facts for C11 (watermarks) and C10 (timer registry guards): the comparison used by each one-line decision, the
+// constant slack of CurrentWatermark and the initial upstream watermark, extracted from the current source.
+//
+// The recognisers read structure, not text: receiver, parameter and local variable names do not matter, operands of a
+// time comparison may appear in either order (`a.After(b)` = `b.Before(a)`, `a.Compare(b) > 0`), a guard may be written
+// as `if c { return }; act` or `if !c { act }`, duration arithmetic is evaluated symbolically (local variables, operand
+// order, parentheses, `-a - b` vs `-(a + b)`).
+//
+// Every fact here is a decision whose whole content is observed directly by lockstep operations of C10/C11 on the real
+// code (see tools/gofacts/fallbacks.json). So an unrecognised shape is reported for the fact by name (ok=false: the
+// last good value is kept and ./check ties the definition by running those correspondences); it is never silently
+// turned into another value. A recognised shape with a different comparison/constant changes the generated fact and
+// the theorems of Props/C10.lean / Props/C11.lean are re-checked against it.
 
 import (
 	"go/ast"
@@ -12,155 +21,393 @@ import (
 
 func init() { extraFactFns = append(extraFactFns, c11Facts) }
 
-// timeCond recognises `[!]X.After(Y)` / `[!]X.Before(Y)` and returns the code the Lean model interprets
-// (Wm.timeCond): 0 = X after Y, 1 = X before Y, 2 = not after, 3 = not before.
-func timeCond(e ast.Expr, wantX, wantY string) (uint64, bool) {
-	neg := false
+func c11Unparen(e ast.Expr) ast.Expr {
 	for {
-		if p, ok := e.(*ast.ParenExpr); ok {
-			e = p.X
-			continue
+		p, ok := e.(*ast.ParenExpr)
+		if !ok {
+			return e
 		}
-		if u, ok := e.(*ast.UnaryExpr); ok && u.Op == token.NOT {
-			neg = !neg
-			e = u.X
-			continue
-		}
-		break
+		e = p.X
 	}
-	c, ok := e.(*ast.CallExpr)
-	if !ok || len(c.Args) != 1 {
-		return 0, false
-	}
-	sel, ok := c.Fun.(*ast.SelectorExpr)
-	if !ok || selName(sel.X) != wantX || selName(c.Args[0]) != wantY {
-		return 0, false
-	}
-	var code uint64
-	switch sel.Sel.Name {
-	case "After":
-		code = 0
-	case "Before":
-		code = 1
-	default:
-		return 0, false
-	}
-	if neg {
-		code += 2
-	}
-	return code, true
 }
 
-var durationUnits = map[string]uint64{"time.Nanosecond": 1, "time.Microsecond": 1000, "time.Millisecond": 1000000, "time.Second": 1000000000}
+// relation codes between x and y as interpreted by the Lean model (Wm.timeCond):
+// 0: x > y (x.After(y)), 1: x < y (x.Before(y)), 2: x <= y, 3: x >= y
+var c11RelNeg = map[uint64]uint64{0: 2, 2: 0, 1: 3, 3: 1}
+var c11RelSwap = map[uint64]uint64{0: 1, 1: 0, 2: 3, 3: 2} // the same relation with the operands exchanged
+
+// c11TimeRel recognises a boolean expression comparing the two time values identified by isX / isY and returns the
+// relation code of x relative to y.
+func c11TimeRel(e ast.Expr, isX, isY func(ast.Expr) bool) (uint64, bool) {
+	e = c11Unparen(e)
+	if u, ok := e.(*ast.UnaryExpr); ok && u.Op == token.NOT {
+		c, ok := c11TimeRel(u.X, isX, isY)
+		return c11RelNeg[c], ok
+	}
+	// a.After(b) / a.Before(b) / a.Equal is not a decision we model
+	if c, ok := e.(*ast.CallExpr); ok && len(c.Args) == 1 {
+		if sel, ok := c.Fun.(*ast.SelectorExpr); ok {
+			var code uint64
+			switch sel.Sel.Name {
+			case "After":
+				code = 0
+			case "Before":
+				code = 1
+			default:
+				return 0, false
+			}
+			a, b := c11Unparen(sel.X), c11Unparen(c.Args[0])
+			if isX(a) && isY(b) {
+				return code, true
+			}
+			if isY(a) && isX(b) {
+				return c11RelSwap[code], true
+			}
+		}
+		return 0, false
+	}
+	// a.Compare(b) <op> 0   /   0 <op> a.Compare(b)
+	if b, ok := e.(*ast.BinaryExpr); ok {
+		ops := map[token.Token]uint64{token.GTR: 0, token.LSS: 1, token.LEQ: 2, token.GEQ: 3}
+		code, ok := ops[b.Op]
+		if !ok {
+			return 0, false
+		}
+		l, r := c11Unparen(b.X), c11Unparen(b.Y)
+		if v, isLit := litVal(l); isLit && v == 0 {
+			l, r = r, l
+			code = c11RelSwap[code]
+		} else if v, isLit := litVal(r); !isLit || v != 0 {
+			return 0, false
+		}
+		c, ok := l.(*ast.CallExpr)
+		if !ok || len(c.Args) != 1 {
+			return 0, false
+		}
+		sel, ok := c.Fun.(*ast.SelectorExpr)
+		if !ok || sel.Sel.Name != "Compare" {
+			return 0, false
+		}
+		a, bb := c11Unparen(sel.X), c11Unparen(c.Args[0])
+		if isX(a) && isY(bb) {
+			return code, true
+		}
+		if isY(a) && isX(bb) {
+			return c11RelSwap[code], true
+		}
+	}
+	return 0, false
+}
+
+func c11RecvName(fn *ast.FuncDecl) string {
+	if fn.Recv != nil && len(fn.Recv.List) == 1 && len(fn.Recv.List[0].Names) == 1 {
+		return fn.Recv.List[0].Names[0].Name
+	}
+	return ""
+}
+
+func c11ParamNames(fn *ast.FuncDecl) []string {
+	var out []string
+	if fn.Type != nil && fn.Type.Params != nil {
+		for _, f := range fn.Type.Params.List {
+			for _, n := range f.Names {
+				out = append(out, n.Name)
+			}
+		}
+	}
+	return out
+}
+
+func c11IsSel(recv, field string) func(ast.Expr) bool {
+	return func(e ast.Expr) bool { return recv != "" && selName(c11Unparen(e)) == recv+"."+field }
+}
+func c11IsIdent(name string) func(ast.Expr) bool {
+	return func(e ast.Expr) bool { id, ok := c11Unparen(e).(*ast.Ident); return ok && name != "" && id.Name == name }
+}
+
+// guarded recognises `if C { <then> }` (no else, no init) as the first statement, or as the only statement, and
+// tells whether <then> is a bare return/break (an "escape").
+func c11IsEscape(b *ast.BlockStmt) bool {
+	if len(b.List) != 1 {
+		return false
+	}
+	switch s := b.List[0].(type) {
+	case *ast.ReturnStmt:
+		return len(s.Results) == 0
+	case *ast.BranchStmt:
+		return s.Tok == token.BREAK
+	}
+	return false
+}
+
+var durationUnits = map[string]int64{"time.Nanosecond": 1, "time.Microsecond": 1000, "time.Millisecond": 1000000, "time.Second": 1000000000}
+
+// c11LinDur evaluates a duration expression to  a*lateness + c  (nanoseconds); lets holds local definitions.
+func c11LinDur(e ast.Expr, isLateness func(ast.Expr) bool, lets map[string]ast.Expr, depth int) (a, c int64, ok bool) {
+	if depth > 12 {
+		return 0, 0, false
+	}
+	e = c11Unparen(e)
+	if isLateness(e) {
+		return 1, 0, true
+	}
+	switch n := e.(type) {
+	case *ast.Ident:
+		if d, ok := lets[n.Name]; ok {
+			return c11LinDur(d, isLateness, lets, depth+1)
+		}
+		if v, ok := litVal(n); ok {
+			return 0, int64(v), true
+		}
+	case *ast.BasicLit:
+		if v, ok := litVal(n); ok {
+			return 0, int64(v), true
+		}
+	case *ast.SelectorExpr:
+		if v, ok := durationUnits[selName(n)]; ok {
+			return 0, v, true
+		}
+	case *ast.UnaryExpr:
+		if n.Op == token.SUB {
+			a, c, ok := c11LinDur(n.X, isLateness, lets, depth+1)
+			return -a, -c, ok
+		}
+		if n.Op == token.ADD {
+			return c11LinDur(n.X, isLateness, lets, depth+1)
+		}
+	case *ast.BinaryExpr:
+		a1, c1, ok1 := c11LinDur(n.X, isLateness, lets, depth+1)
+		a2, c2, ok2 := c11LinDur(n.Y, isLateness, lets, depth+1)
+		if !ok1 || !ok2 {
+			return 0, 0, false
+		}
+		switch n.Op {
+		case token.ADD:
+			return a1 + a2, c1 + c2, true
+		case token.SUB:
+			return a1 - a2, c1 - c2, true
+		case token.MUL:
+			if a1 == 0 {
+				return c1 * a2, c1 * c2, true
+			}
+			if a2 == 0 {
+				return a1 * c2, c1 * c2, true
+			}
+		}
+	case *ast.CallExpr:
+		// time.Duration(x)
+		if selName(n.Fun) == "time.Duration" && len(n.Args) == 1 {
+			return c11LinDur(n.Args[0], isLateness, lets, depth+1)
+		}
+	}
+	return 0, 0, false
+}
 
 func c11Facts(fc *facts) {
 	wf := parseFile("workers/wmark/watermarks.go")
 
-	// AdvanceTime: `if eventTimestamp.After(w.maxTimestamp) { w.maxTimestamp = eventTimestamp }`
-	adv := findFuncOr(wf, "Watermarker", "AdvanceTime")
-	okAdv := false
-	if len(adv.Body.List) == 1 {
-		if is, ok := adv.Body.List[0].(*ast.IfStmt); ok && is.Init == nil && is.Else == nil && len(is.Body.List) == 1 {
-			if as, ok := is.Body.List[0].(*ast.AssignStmt); ok && as.Tok == token.ASSIGN && len(as.Lhs) == 1 && len(as.Rhs) == 1 &&
-				selName(as.Lhs[0]) == "w.maxTimestamp" && selName(as.Rhs[0]) == "eventTimestamp" {
-				if code, ok := timeCond(is.Cond, "eventTimestamp", "w.maxTimestamp"); ok {
+	// AdvanceTime(p): maxTimestamp becomes p exactly when <p rel maxTimestamp>; written as
+	// `if C { w.max = p }` or `if !C { return }; w.max = p`
+	func() {
+		const what = "Watermarker.AdvanceTime: `if <param cmp recv.maxTimestamp> { recv.maxTimestamp = param }` (or the early-return form)"
+		adv := findFunc(wf, "Watermarker", "AdvanceTime")
+		ps := []string{}
+		if adv != nil {
+			ps = c11ParamNames(adv)
+		}
+		if adv == nil || adv.Body == nil || len(ps) != 1 {
+			fc.set("wmAdvanceCond", 0, false, what)
+			return
+		}
+		isP, isMax := c11IsIdent(ps[0]), c11IsSel(c11RecvName(adv), "maxTimestamp")
+		isAssign := func(s ast.Stmt) bool {
+			as, ok := s.(*ast.AssignStmt)
+			return ok && as.Tok == token.ASSIGN && len(as.Lhs) == 1 && len(as.Rhs) == 1 && isMax(as.Lhs[0]) && isP(as.Rhs[0])
+		}
+		body := adv.Body.List
+		if len(body) == 1 {
+			if is, ok := body[0].(*ast.IfStmt); ok && is.Init == nil && is.Else == nil && len(is.Body.List) == 1 && isAssign(is.Body.List[0]) {
+				if code, ok := c11TimeRel(is.Cond, isP, isMax); ok {
 					fc.set("wmAdvanceCond", code, true, "")
-					okAdv = true
+					return
 				}
 			}
 		}
-	}
-	if !okAdv {
-		problemFor([]string{"wmAdvanceCond"}, "Watermarker.AdvanceTime no longer has the shape `if eventTimestamp.After|Before(w.maxTimestamp) { w.maxTimestamp = eventTimestamp }`")
-	}
+		if len(body) == 2 && isAssign(body[1]) {
+			if is, ok := body[0].(*ast.IfStmt); ok && is.Init == nil && is.Else == nil && c11IsEscape(is.Body) {
+				if code, ok := c11TimeRel(is.Cond, isP, isMax); ok {
+					fc.set("wmAdvanceCond", c11RelNeg[code], true, "")
+					return
+				}
+			}
+		}
+		fc.set("wmAdvanceCond", 0, false, what)
+	}()
 
-	// CurrentWatermark: `return w.maxTimestamp.Add(-(w.allowedLateness + time.<Unit>))`
-	cur := findFuncOr(wf, "Watermarker", "CurrentWatermark")
-	okCur := false
-	if len(cur.Body.List) == 1 {
-		if rs, ok := cur.Body.List[0].(*ast.ReturnStmt); ok && len(rs.Results) == 1 {
-			if c, ok := rs.Results[0].(*ast.CallExpr); ok && selName(c.Fun) == "w.maxTimestamp.Add" && len(c.Args) == 1 {
-				if u, ok := c.Args[0].(*ast.UnaryExpr); ok && u.Op == token.SUB {
-					inner := u.X
-					if p, ok := inner.(*ast.ParenExpr); ok {
-						inner = p.X
-					}
-					if b, ok := inner.(*ast.BinaryExpr); ok && b.Op == token.ADD && selName(b.X) == "w.allowedLateness" {
-						if v, ok := durationUnits[selName(b.Y)]; ok {
-							fc.set("wmSlackNs", v, true, "")
-							okCur = true
-						}
+	// CurrentWatermark: `return recv.maxTimestamp.Add(E)` with E = -(allowedLateness + slack), after local definitions
+	func() {
+		const what = "Watermarker.CurrentWatermark: `return recv.maxTimestamp.Add(-(recv.allowedLateness + <constant duration>))`"
+		cur := findFunc(wf, "Watermarker", "CurrentWatermark")
+		if cur == nil || cur.Body == nil || len(cur.Body.List) == 0 {
+			fc.set("wmSlackNs", 0, false, what)
+			return
+		}
+		recv := c11RecvName(cur)
+		lets := map[string]ast.Expr{}
+		body := cur.Body.List
+		for _, s := range body[:len(body)-1] {
+			as, ok := s.(*ast.AssignStmt)
+			if !ok || as.Tok != token.DEFINE || len(as.Lhs) != 1 || len(as.Rhs) != 1 {
+				fc.set("wmSlackNs", 0, false, what)
+				return
+			}
+			id, ok := as.Lhs[0].(*ast.Ident)
+			if !ok {
+				fc.set("wmSlackNs", 0, false, what)
+				return
+			}
+			lets[id.Name] = as.Rhs[0]
+		}
+		rs, ok := body[len(body)-1].(*ast.ReturnStmt)
+		if ok && len(rs.Results) == 1 {
+			if c, ok := c11Unparen(rs.Results[0]).(*ast.CallExpr); ok && len(c.Args) == 1 {
+				if sel, ok := c.Fun.(*ast.SelectorExpr); ok && sel.Sel.Name == "Add" && c11IsSel(recv, "maxTimestamp")(sel.X) {
+					if a, k, ok := c11LinDur(c.Args[0], c11IsSel(recv, "allowedLateness"), lets, 0); ok && a == -1 && k <= 0 {
+						fc.set("wmSlackNs", uint64(-k), true, "")
+						return
 					}
 				}
 			}
 		}
-	}
-	if !okCur {
-		problemFor([]string{"wmSlackNs"}, "Watermarker.CurrentWatermark no longer has the shape `return w.maxTimestamp.Add(-(w.allowedLateness + time.<Unit>))`")
-	}
+		fc.set("wmSlackNs", 0, false, what)
+	}()
 
 	rf := parseFile("workers/operator/timer_registry.go")
 
-	// SetTimer: `if !r.watermark.Before(t) { return }` followed by `r.store.Put(key, t)`
-	st := findFuncOr(rf, "TimerRegistry", "SetTimer")
-	okSet := false
-	if len(st.Body.List) == 2 {
-		if is, ok := st.Body.List[0].(*ast.IfStmt); ok && is.Init == nil && is.Else == nil && len(is.Body.List) == 1 {
-			if r, ok := is.Body.List[0].(*ast.ReturnStmt); ok && len(r.Results) == 0 {
-				if es, ok := st.Body.List[1].(*ast.ExprStmt); ok {
-					if c, ok := es.X.(*ast.CallExpr); ok && selName(c.Fun) == "r.store.Put" && len(c.Args) == 2 && selName(c.Args[0]) == "key" && selName(c.Args[1]) == "t" {
-						if code, ok := timeCond(is.Cond, "r.watermark", "t"); ok {
-							fc.set("timerGuardCond", code, true, "")
-							okSet = true
-						}
-					}
+	// SetTimer(key, t): the timer is dropped exactly when <recv.watermark rel t>; written as
+	// `if C { return }; recv.store.Put(key, t)` or `if !C { recv.store.Put(key, t) }`
+	func() {
+		const what = "TimerRegistry.SetTimer: `if <recv.watermark cmp t> { return }; recv.store.Put(key, t)` (or the guarded-call form)"
+		st := findFunc(rf, "TimerRegistry", "SetTimer")
+		ps := []string{}
+		if st != nil {
+			ps = c11ParamNames(st)
+		}
+		if st == nil || st.Body == nil || len(ps) != 2 {
+			fc.set("timerGuardCond", 0, false, what)
+			return
+		}
+		recv := c11RecvName(st)
+		isWm, isT := c11IsSel(recv, "watermark"), c11IsIdent(ps[1])
+		isPut := func(s ast.Stmt) bool {
+			es, ok := s.(*ast.ExprStmt)
+			if !ok {
+				return false
+			}
+			c, ok := es.X.(*ast.CallExpr)
+			return ok && selName(c.Fun) == recv+".store.Put" && len(c.Args) == 2 && c11IsIdent(ps[0])(c.Args[0]) && isT(c.Args[1])
+		}
+		body := st.Body.List
+		if len(body) == 2 && isPut(body[1]) {
+			if is, ok := body[0].(*ast.IfStmt); ok && is.Init == nil && is.Else == nil && c11IsEscape(is.Body) {
+				if code, ok := c11TimeRel(is.Cond, isWm, isT); ok {
+					fc.set("timerGuardCond", code, true, "")
+					return
 				}
 			}
 		}
-	}
-	if !okSet {
-		problemFor([]string{"timerGuardCond"}, "TimerRegistry.SetTimer no longer has the shape `if <r.watermark cmp t> { return }; r.store.Put(key, t)`")
-	}
-
-	// AdvanceWatermark: the loop's stop test `if timer.Timestamp.After(compositeWatermark) { break }`,
-	// and the initial upstream value `time.Unix(a, b)` of NewTimerRegistry
-	aw := findFuncOr(rf, "TimerRegistry", "AdvanceWatermark")
-	var stops []uint64
-	ast.Inspect(aw, func(n ast.Node) bool {
-		is, ok := n.(*ast.IfStmt)
-		if !ok || len(is.Body.List) != 1 {
-			return true
+		if len(body) == 1 {
+			if is, ok := body[0].(*ast.IfStmt); ok && is.Init == nil && is.Else == nil && len(is.Body.List) == 1 && isPut(is.Body.List[0]) {
+				if code, ok := c11TimeRel(is.Cond, isWm, isT); ok {
+					fc.set("timerGuardCond", c11RelNeg[code], true, "")
+					return
+				}
+			}
 		}
-		if br, ok := is.Body.List[0].(*ast.BranchStmt); ok && br.Tok == token.BREAK {
-			if code, ok := timeCond(is.Cond, "timer.Timestamp", "compositeWatermark"); ok {
+		fc.set("timerGuardCond", 0, false, what)
+	}()
+
+	// AdvanceWatermark: the fire loop stops exactly when <timer.Timestamp rel composite>, where composite is the local
+	// that receives the minimum of the upstreams (or recv.watermark itself): `if C { break }` / `if C { return }`
+	func() {
+		const what = "TimerRegistry.AdvanceWatermark: exactly one `if <timer.Timestamp cmp composite> { break }` in the fire loop"
+		aw := findFunc(rf, "TimerRegistry", "AdvanceWatermark")
+		if aw == nil || aw.Body == nil {
+			fc.set("fireStopCond", 0, false, what)
+			return
+		}
+		recv := c11RecvName(aw)
+		composite := map[string]bool{}
+		ast.Inspect(aw, func(n ast.Node) bool {
+			as, ok := n.(*ast.AssignStmt)
+			if !ok || len(as.Lhs) != 1 || len(as.Rhs) != 1 {
+				return true
+			}
+			// x := iteru.MinFunc(...)   and   recv.watermark = x
+			if c, ok := c11Unparen(as.Rhs[0]).(*ast.CallExpr); ok && selName(c.Fun) == "iteru.MinFunc" {
+				if id, ok := as.Lhs[0].(*ast.Ident); ok {
+					composite[id.Name] = true
+				}
+			}
+			return true
+		})
+		isComp := func(e ast.Expr) bool {
+			e = c11Unparen(e)
+			if id, ok := e.(*ast.Ident); ok {
+				return composite[id.Name]
+			}
+			return c11IsSel(recv, "watermark")(e)
+		}
+		isTs := func(e ast.Expr) bool {
+			sel, ok := c11Unparen(e).(*ast.SelectorExpr)
+			if !ok || sel.Sel.Name != "Timestamp" {
+				return false
+			}
+			_, isId := sel.X.(*ast.Ident)
+			return isId
+		}
+		var stops []uint64
+		ast.Inspect(aw, func(n ast.Node) bool {
+			is, ok := n.(*ast.IfStmt)
+			if !ok || is.Else != nil || !c11IsEscape(is.Body) {
+				return true
+			}
+			if code, ok := c11TimeRel(is.Cond, isTs, isComp); ok {
 				stops = append(stops, code)
 			}
+			return true
+		})
+		if len(stops) == 1 {
+			fc.set("fireStopCond", stops[0], true, "")
+		} else {
+			fc.set("fireStopCond", 0, false, what)
 		}
-		return true
-	})
-	if len(stops) == 1 {
-		fc.set("fireStopCond", stops[0], true, "")
-	} else {
-		problemFor([]string{"fireStopCond"}, "TimerRegistry.AdvanceWatermark: expected exactly one `if timer.Timestamp.After|Before(compositeWatermark) { break }`, found %d", len(stops))
-	}
+	}()
 
-	nr := findFuncOr(rf, "", "NewTimerRegistry")
-	var inits [][2]uint64
-	ast.Inspect(nr, func(n ast.Node) bool {
-		c, ok := n.(*ast.CallExpr)
-		if ok && selName(c.Fun) == "time.Unix" && len(c.Args) == 2 {
-			a, ok1 := litVal(c.Args[0])
-			b, ok2 := litVal(c.Args[1])
-			if ok1 && ok2 {
-				inits = append(inits, [2]uint64{a, b})
-			}
+	// NewTimerRegistry: the one `time.Unix(<int>, <int>)` every configured runner starts with
+	func() {
+		const what = "NewTimerRegistry: exactly one time.Unix(<int>, <int>) as the initial upstream watermark"
+		nr := findFunc(rf, "", "NewTimerRegistry")
+		var inits [][2]uint64
+		if nr != nil {
+			ast.Inspect(nr, func(n ast.Node) bool {
+				c, ok := n.(*ast.CallExpr)
+				if ok && selName(c.Fun) == "time.Unix" && len(c.Args) == 2 {
+					a, ok1 := litVal(c.Args[0])
+					b, ok2 := litVal(c.Args[1])
+					if ok1 && ok2 {
+						inits = append(inits, [2]uint64{a, b})
+					}
+				}
+				return true
+			})
 		}
-		return true
-	})
-	if len(inits) == 1 {
-		fc.set("upstreamInitSec", inits[0][0], true, "")
-		fc.set("upstreamInitNsec", inits[0][1], true, "")
-	} else {
-		problemFor([]string{"upstreamInitSec", "upstreamInitNsec"}, "NewTimerRegistry: expected exactly one time.Unix(<lit>, <lit>) initial upstream watermark, found %d", len(inits))
-	}
+		if len(inits) == 1 {
+			fc.set("upstreamInitSec", inits[0][0], true, "")
+			fc.set("upstreamInitNsec", inits[0][1], true, "")
+		} else {
+			fc.set("upstreamInitSec", 0, false, what)
+			fc.set("upstreamInitNsec", 0, false, what)
+		}
+	}()
 }
